@@ -284,6 +284,27 @@ theorem C11_withdraw_hf {p : Portfolio} (hwf : p.WF) {tok : String} {a : Rat} {s
         = totalDebt NumCtx.exact p := rfl
     rw [hd]; simpa using hle
 
+namespace AaveRisk
+/-- 1 + 5·10⁻¹⁹ WETH (price 1000, LT 0.825) as collateral against a debt worth exactly 5·10⁻¹⁹ × 1000 × 0.825 -/
+def c11DustP : Portfolio :=
+  { supplies := [{ tok := "WETH", base := 1 + 5 / 10 ^ 19, coll := true,
+                   row := { liqIndex := 1, borIndex := 1, price := 1000, ltv := 8/10, lt := 825/1000, bonus := 5/100, canColl := true, canBorrow := true } }],
+    debts := [{ tok := "USDC", base := 4125 / 10 ^ 19,
+                row := { liqIndex := 1, borIndex := 1, price := 1, ltv := 8/10, lt := 85/100, bonus := 4/100, canColl := true, canBorrow := true } }] }
+
+def c11DustCheck : Bool :=
+  match withdraw NumCtx.exact c11DustP "WETH" (some 1) with
+  | .ok (p', _) => p'.supplies.isEmpty && decide (0 < totalDebt NumCtx.exact p') && (healthFactor NumCtx.exact p').ltB 1
+      && decide (snapDust (1 + 5 / 10 ^ 19) (1 / 1) = 5 / 10 ^ 19)
+  | _ => false
+end AaveRisk
+
+/-- **The dust term of `C11_withdraw_hf` is needed**: withdrawing 1 WETH of 1 + 5·10⁻¹⁹ is accepted (the health factor
+    on the trial state is exactly 1), then `sub_base_amount` snaps the 5·10⁻¹⁹ remainder to 0 and deletes the supply:
+    the account keeps a (dust) debt with health factor 0.  `helper.sub_base_amount` documents remainders below 1e-18 as
+    "considered 0"; the statements of C11/C12 are therefore up to `MIN_TOKEN_VALUE` scaled units. -/
+theorem C11_withdraw_hf_dust_term_needed : c11DustCheck = true := by decide +kernel
+
 /-! ## change_collateral -/
 
 /-- **change_collateral: accepted iff** the token is supplied and — when a collateral flag is switched off — the
